@@ -7,6 +7,7 @@ import (
 	"os"
 	"path/filepath"
 	"strings"
+	"time"
 )
 
 const (
@@ -107,6 +108,10 @@ func vxInt64(name string, lo, hi int64) int64 {
 
 func vxBool(name string) bool {
 	return vxPlanInt(name) != 0
+}
+
+func vxTime(name string, lo, hi int64) time.Time {
+	if v := vxPlanInt(name); v != 0 { return time.Unix(0, int64(v)) }; return time.Time{}
 }
 
 func vxChoice(name string, n int) int {
